@@ -39,6 +39,12 @@ def handle : Handler
         let r := mpnPowmMem REDC_1_TO_REDC_N_THRESHOLD nextSize binvItch (max (binvItch n) (2 * n)) b e m
         some (if r.2 then [.vec r.1] else [.vec r.1, .err "oob"])
       else none
+  | "mpn_powlo_m", [.vec b, .vec e, .num n] =>
+      -- powlo.c: bp has n limbs, {ep,en} > 1 normalised; scratch 3n limbs
+      if n ≥ 1 && b.length ≥ n.toNat && topnz e && val e > 1 then
+        let r := mpnPowloMem (3 * n.toNat) b e n.toNat
+        some (if r.2 then [.vec r.1] else [.vec r.1, .err "oob"])
+      else none
   | _, _ => none
 
 private def bad (s : String) : Option (Option String) := some (some s)
